@@ -10,6 +10,7 @@ from harness.legs import cfg_text, leg_m, leg_mutant, leg_r
 from harness.vloop import Falsy, elder_loop
 
 SPEC = "Wrappers"
+OPT_PASS = False   # `traced` is documented to do nothing without __debug__: the optimised pass has nothing to compare here
 MANIFEST = dict(
     text="Wrappers.tla models one call through asynchronous (function and method form, default / explicit executor), "
          "wrap_async (sync and async argument) and traced (sync and async) from a caller nested 0-2 scopes deep, for "
@@ -35,6 +36,25 @@ EXPECT = {"pos": (1, 2, (), {}), "kw": (1, 2, (), {}), "defaults": (1, 2, (), {}
 
 def real_wait(seconds):
     threading.Event().wait(seconds)
+
+
+class _SlottedMeta(type):
+    pass
+
+
+def _make_slotted():
+    # (a class docstring would conflict with a __doc__ slot)
+    ns = {"__slots__": ("__name__", "__qualname__", "__doc__"), "__call__": lambda self, x: x}
+    cls = _SlottedMeta("Slotted", (), ns)
+    o = cls()
+    o.__name__ = o.__qualname__ = "slotted"
+    o.__doc__ = "the docstring"
+    return o
+
+
+def _Slotted():
+    """a callable object with no instance dictionary"""
+    return _make_slotted()
 
 
 class WrappersDriver:
@@ -304,11 +324,16 @@ class WrappersDriver:
         variants = variants + extra
         for v in extra:
             v[1].__name__ = v[1].__wrapped__.__name__
+        # ... or a callable WITHOUT an instance dictionary: a builtin (the textbook use of `asynchronous` is a blocking C
+        # function), an instance of a class with __slots__
+        if d in ("asynchronous", "wrap_async", "traced", "cache", "retry"):
+            variants = variants + [(variants[0][0], len), (variants[-1][0] if d != "cache" else cache, sorted),
+                                   (variants[0][0], _Slotted())]
         name = doc = wrapped = True
         for deco, f in variants:
             g = deco(f)
             name &= getattr(g, "__name__", None) == f.__name__
-            doc &= getattr(g, "__doc__", None) == "the docstring"
+            doc &= getattr(g, "__doc__", None) == f.__doc__ and f.__doc__ is not None
             wrapped &= (g is f) or getattr(g, "__wrapped__", None) is f
         return ("name_ok" if name else "name_lost", "doc_ok" if doc else "doc_lost", "wrapped_ok" if wrapped else "missing")
 
